@@ -176,6 +176,23 @@ def _run_periodic(case):
     def create(sched):
         holder["d"] = sched.schedule_periodic(enc_rel(base, period, case["pform"]), action, state=_S0[case["s0"]])
 
+    never_ends = []
+    if use_start:
+        # start() only returns once the periodic work stopped rescheduling itself; a muted-but-alive periodic item (the
+        # user action is no longer invoked, so the invocation fuse above cannot blow) would keep start() running for
+        # ever. Fuse on the driver's public schedule_absolute (every tick re-arms through it).
+        budget = [4 * (hi + 10) + 50]
+        orig_sa = inner.schedule_absolute
+
+        def counted_sa(duetime, act, state=None):
+            budget[0] -= 1
+            if budget[0] < 0:
+                never_ends.append(True)
+                raise _Runaway()
+            return orig_sa(duetime, act, state)
+
+        inner.schedule_absolute = counted_sa
+
     try:
         if stop is not None and stop[0] == "at":
             inner.schedule_absolute(enc_abs(base, init + t0 + stop[1], "num"), lambda s, st_=None: holder["d"].dispose())
@@ -219,6 +236,8 @@ def _run_periodic(case):
     if len(case["steps"]) > 1:
         cls.append("chunked-advance")
     culprit = kind
+    if never_ends:
+        return FAIL(f"start-never-returns|{culprit}", f"the periodic item keeps re-arming after the work should have stopped ({n} invocations of the action, at most {hi} expected): start() would never return; log={log[:10]} case={case}", classes=cls)
     if n > hi:
         why = "after-raise" if (raise_at is not None and n > raise_at) else ("after-dispose" if stop is not None else "beyond-horizon")
         return FAIL(f"invoked-{why}|{culprit}", f"{n} invocations, expected at most {hi}; log={log[:10]} case={case}", classes=cls)
